@@ -635,6 +635,9 @@ def exec_match(ex: Exec, st: ast.Match) -> None:
     subj = ex.eval(st.subject)
     for case in st.cases:
         pat = case.pattern
+        if (isinstance(pat, ast.MatchAs) and isinstance(pat.pattern, ast.MatchAs) and pat.pattern.pattern is None
+                and pat.pattern.name is None):
+            pat = ast.MatchAs(pattern=None, name=pat.name)  # `case _ as e`
         if isinstance(pat, ast.MatchAs) and pat.pattern is None:
             if pat.name:
                 ex.locals[pat.name] = subj
